@@ -297,7 +297,11 @@ impl Run<'_> {
         ctx.eval();
         self.stats[ti].variants += 1;
         let label = || format!("{} {} {}", e.name, origin, mutation);
-        let out = match ctx.run_case(&label, None, &|| (e.check)(j)) {
+        // the cpu-time bound of the progress monitor scales with the input
+        // size; the input here is the value (≈ 16 bytes of JSON per node)
+        static ZEROS: [u8; 1 << 23] = [0u8; 1 << 23];
+        let size = (node_count(j) * 16).min(ZEROS.len());
+        let out = match ctx.run_case(&label, if ctx.trace { None } else { Some(&ZEROS[..size]) }, &|| (e.check)(j)) {
             Ok(o) => o,
             Err(p) => {
                 // a panic that escaped the per-stage guards is harness code or
